@@ -1,10 +1,11 @@
 /-!
 # The Go value universe and flyt's typed accessors (property C15)
 
-Mirrors `result.go:32-279` (`Result.AsX / AsXOr / MustX`), `flyt.go:163-364`
+Mirrors `result.go:32-279` (`Result.AsX / AsXOr / MustX`), `result.go:378-399` (`As[T]`, `MustAs[T]`), `flyt.go:163-364`
 (`SharedStore.GetX / GetXOr`) and `flyt.go:1032-1076` (`ToSlice`).
 
-* `GoType` / `GoVal`: dynamic types and values as an `any` can hold them. Every non-nil value carries
+* `GoType` / `GoVal`: dynamic types and values as an `any` can hold them (a `flyt.Result` used as a
+  value included: `tResult`, `GoVal.result`). Every non-nil value carries
   its dynamic type; identity-bearing values (pointers, maps, channels) carry an identity number,
   floats carry their IEEE-754 bit pattern (so NaN, ±Inf, ±0 are exact), integers their
   mathematical value.
@@ -158,6 +159,12 @@ def tFloat64s : GoType := .slice (.basic .float64)
 def tMapSA : GoType := .map (.basic .string) .any
 def tMapSAs : GoType := .slice tMapSA
 
+/-- the interface type `error` (a named interface type: kind `iface`, comparable as a static type,
+    never the dynamic type of a value) -/
+def tError : GoType := .named "error" .any
+/-- `flyt.Result` (result.go:11-14): `struct { value any; err error }` -/
+def tResult : GoType := .named "Result" (.structField .any (.structField tError .structEnd))
+
 namespace GoVals
 def toList : GoVals → List GoVal
   | .nil => []
@@ -194,6 +201,15 @@ def kind : GoVal → Kind
   | .array .. => .array
   | .struct .. => .struct
 
+/-- a `flyt.Result` used as an ordinary value (a payload of another Result, a store entry, an element
+    of a slice …): the struct `Result{value: v, err: e}`. It is a struct-kind value like any other —
+    never nil, not a slice, not a map, not a source type of any accessor. -/
+def result (v e : GoVal) : GoVal := .struct tResult (.cons v (.cons e .nil))
+/-- `flyt.NewResult(v)` (result.go:18) -/
+def newResult (v : GoVal) : GoVal := result v .nil
+/-- `flyt.NewErrorResult(err)` (result.go:23) -/
+def newErrorResult (e : GoVal) : GoVal := result .nil e
+
 /-- representation and dynamic type fit together (top level only) -/
 def shapeOK (v : GoVal) : Bool :=
   match v.typeOf? with
@@ -202,9 +218,12 @@ def shapeOK (v : GoVal) : Bool :=
 
 end GoVal
 
-/-- may a value sit in a slot (slice element, array element, struct field) of static type `e`? -/
+/-- may a value sit in a slot (slice element, array element, struct field) of static type `e`?
+    A slot of interface type (`any`, `error`) holds nil or a value of any dynamic type — the method
+    set of `error` is not modelled, so well-formedness admits every value there (a superset of what
+    Go admits); a slot of any other type holds values of exactly that type. -/
 def slotOK (e : GoType) (h : GoVal) : Bool :=
-  if e = .any then true else h.typeOf? == some e
+  if e.kind == .iface then true else h.typeOf? == some e
 
 mutual
 /-- well-formedness of a value, recursively: representation fits the type, integers are in range,
@@ -499,6 +518,63 @@ def asSlice := asSliceWith kindTest
 def asSliceOr := asSliceOrWith kindTest
 def mustSlice := mustSliceWith kindTest
 
+/-! ## Generic accessors `As[T]` / `MustAs[T]` (result.go:378-399) -/
+
+def GoVals.replicate (n : Nat) (v : GoVal) : GoVals :=
+  match n with
+  | 0 => .nil
+  | n + 1 => .cons v (GoVals.replicate n v)
+
+mutual
+/-- the zero value of a type whose underlying type is the second argument, as an `any` holds it
+    (labelled with the type `outer`; for an interface type: the nil interface) -/
+def zeroAs (outer : GoType) : GoType → GoVal
+  | .basic .string => .str outer ""
+  | .basic .bool => .bool outer false
+  | .basic .float32 | .basic .float64 => .float outer 0
+  | .basic .complex64 | .basic .complex128 => .complex outer 0 0
+  | .basic _ => .int outer 0
+  | .any => .nil
+  | .ptr _ => .ptr outer none
+  | .slice _ => .slice outer true .nil
+  | .array n e => .array outer (GoVals.replicate n (zeroAs e e))
+  | .map _ _ => .map outer none
+  | .chan _ => .chan outer none
+  | .func _ => .func outer true
+  | .structEnd => .struct outer .nil
+  | .structField f r => .struct outer (.cons (zeroAs f f) (zeroFields r))
+  | .named _ u => zeroAs outer u
+def zeroFields : GoType → GoVals
+  | .structField f r => .cons (zeroAs f f) (zeroFields r)
+  | _ => .nil
+end
+
+/-- `var zero T` -/
+def zeroOf (t : GoType) : GoVal := zeroAs t t
+
+/-- result.go:378 `As[T]`: `typed, ok := r.value.(T)` after the nil check. For a non-interface `T` the
+    assertion holds iff the dynamic type is identical to `T`; for `T = any` iff the value is not nil.
+    (Interface types with methods — `error` — are not instantiated: the model has no method sets.)
+    On failure `typed` is the zero value of `T`. -/
+def asT (t : GoType) (v : GoVal) : GoVal × Bool :=
+  match v.typeOf? with
+  | none => (zeroOf t, false)
+  | some u => if t = .any ∨ u = t then (v, true) else (zeroOf t, false)
+
+/-- result.go:393 `MustAs[T]` -/
+def mustT (t : GoType) (v : GoVal) : Ret GoVal :=
+  let r := asT t v
+  if !r.2 then .panic else .ok r.1
+
+/-- the instantiations of `T` every scenario observes (the harness owns the same list) -/
+def genTargets : List GoType :=
+  [.basic .int, tString, .basic .float64, tBool, .basic .uint8, tAnys, tInts, tMapSA, .any, tResult,
+   .slice tResult, .named "MyInt" (.basic .int), .ptr (.basic .int), .func 0, .array 2 (.basic .int),
+   .named "MyRec" (.structField (.basic .int) (.structField tString .structEnd)), .ptr tResult]
+
+/-- one instantiation: `As[T]` (value, ok) and `MustAs[T]` -/
+abbrev GenObs := Ret (GoVal × Bool) × Ret GoVal
+
 /-! ## SharedStore getters (flyt.go:163-364). The type switches are duplicated there, so they are
 duplicated here. -/
 
@@ -657,6 +733,8 @@ structure Obs where
   bool : FamObs Bool
   slice : FamObs SliceV
   map : FamObs MapV
+  /-- `As[T]` / `MustAs[T]` for each `T` of `genTargets`, in that order -/
+  gen : List GenObs
   toSlice : Ret SliceV
   /-- `any(v) == any(v)` -/
   eqSelf : EqRes
@@ -699,6 +777,7 @@ def observeWith (test : SliceTest) (sc : Scenario) : Obs :=
     map := { as_ := .ok (asMap v), or_ := .ok (asMapOr v d.m), must := mustMap v,
              get := .ok (getMap st keyK), getOr := .ok (getMapOr st keyK d.m),
              getMiss := .ok (getMap st keyMiss), getOrMiss := .ok (getMapOr st keyMiss d.m) }
+    gen := genTargets.map fun t => (.ok (asT t v), mustT t v)
     toSlice := .ok (toSlice v)
     eqSelf := ifaceEq v v
     eqHead := match (toSlice v).getD [] with | [e] => some (ifaceEq e v) | _ => none }
